@@ -216,12 +216,12 @@ def assumptions_of(targets):
 # --------------------------------------------------------------------------
 # step 3/4: harness
 
-def build_harness(binname):
+def build_harness(binname, flags=()):
     os.makedirs(BIN, exist_ok=True)
     hdir = HARNESS
     with Lock(os.path.join(OUT, "work", "go-%s.lock" % binname)):
         shutil.copyfile(os.path.join(REPO, "go.sum"), os.path.join(hdir, "go.sum"))
-        rc, out = sh(["go", "build", "-tags", "verif", "-o", os.path.join(BIN, binname), "./cmd/" + binname],
+        rc, out = sh(["go", "build", "-tags", "verif"] + list(flags) + ["-o", os.path.join(BIN, binname), "./cmd/" + binname],
                      cwd=hdir, env=GOENV, timeout=1800)
         return rc == 0, out
 
@@ -415,7 +415,7 @@ def run_check(prop, tier, seed, replay=None):
                 notes.append("Print Assumptions of %s printed: %s" % (v, a["other_output"][:5]))
 
     # 3 build
-    ok_build, out_build = build_harness(prop.harness_bin)
+    ok_build, out_build = build_harness(prop.harness_bin, getattr(prop, 'build_flags', ()))
     if not ok_build:
         print(out_build[-4000:], file=sys.stderr)
         raise SystemExit("harness does not build against %s (exit 2)" % REPO)
@@ -607,7 +607,7 @@ def run_replay(prop, path):
     os.makedirs(work, exist_ok=True)
     run_gen()
     make_targets([prop.check_vo])
-    ok, out = build_harness(prop.harness_bin)
+    ok, out = build_harness(prop.harness_bin, getattr(prop, 'build_flags', ()))
     if not ok:
         raise SystemExit(out)
     inp = os.path.join(work, "replay_in.jsonl")
